@@ -398,12 +398,6 @@ pub fn run_worker(a: WorkerArgs) {
                                 }
                             }
                         }
-                        if matches!(plan.mode.as_str(), "reader" | "load" | "use" | "mem" | "threads" | "trunc") && plan.base.len() <= 1 << 20 {
-                            if recent.len() >= 256 {
-                                recent.pop_front();
-                            }
-                            recent.push_back(plan.clone());
-                        }
                         account(aggr, jobr, sub, &plan, &image, &rep);
                         if let Some(d) = dumpr.as_mut() {
                             let _ = writeln!(d, "{} {} {:016x}", jobr.id, sub, rep.facts.digest);
@@ -435,6 +429,13 @@ pub fn run_worker(a: WorkerArgs) {
                                 let _ = std::fs::write(&path, serde_json::to_string_pretty(&j).unwrap());
                                 emit(&format!("V {}", json!({"job": jobr.id, "sub": sub, "violation": v.to_json(), "replay": path})));
                             }
+                        }
+                        // kept (by move, no copy) as possible history of later runs on this thread
+                        if matches!(plan.mode.as_str(), "reader" | "load" | "use" | "mem" | "threads" | "trunc") && plan.base.len() <= 1 << 20 {
+                            if recent.len() >= 256 {
+                                recent.pop_front();
+                            }
+                            recent.push_back(plan);
                         }
                     }
                 })
